@@ -15,7 +15,7 @@ import aquacrop.core as MCORE
 def _clock_configs(tier):
     out = []
     for off in (False, True):
-        for nseas in (1, 2, 3):
+        for nseas in ((1, 2, 3) if tier == "quick" else (1, 2, 3, 4, 5)):
             for sc in range(-1, nseas):
                 for hf in (False, True):
                     if sc == -1 and hf:
@@ -124,9 +124,9 @@ class _Weather:
 
 def _c09_configs(tier):
     out = []
-    kmax = 3 if tier == "quick" else 5
-    tmax = 5 if tier == "quick" else 8
-    for ncalls in (1, 2, 3):
+    kmax = 3 if tier == "quick" else 8
+    tmax = 5 if tier == "quick" else 12
+    for ncalls in ((1, 2, 3) if tier == "quick" else (1, 2, 3, 4)):
         for jump_at in (None, 1):
             out.append((f"calls={ncalls}|kmax={kmax}|Tmax={tmax}|jump_at={jump_at}", dict(ncalls=ncalls, kmax=kmax, tmax=tmax, jump_at=jump_at)))
     return out
